@@ -16,6 +16,7 @@ kf["findings"] = [e for e in kf["findings"] if not (e["property"] == prop and e[
 e = {"property": prop, "status": status, "signature": sig, "what_fails": what, "replay": rp}
 if commit != "-":
     e["commit"] = commit
+e["line"] = ("fixed: property=%s %s %s" % (prop, commit, what)) if status == "fixed" else ("known: property=%s %s" % (prop, what))
 kf["findings"].append(e)
 json.dump(kf, open(kfp, "w"), indent=1)
 print("ok", rp)
